@@ -184,12 +184,70 @@ PartTags(p) ==
    ELSE IF p.k \in {"index", "item_index"} /\ Has(p.t, "d2") THEN {"digit.nonascii"}
    ELSE IF p.k \in {"keyword", "item_key"} /\ PlusDigits(p.t) THEN {"plus_digits"}
    ELSE {}
+\* features of a rejected input that the reference's bracket / brace rules react to
+InTags(t) == (IF Has(t, "LK") THEN {"in.bracket"} ELSE {})
+             \cup (IF \E k \in 1..(Len(t) - 1) : t[k] = "BANG" /\ t[k + 1] \in {"LB", "RB", "COLON", "BANG", "LK", "RK"} THEN {"in.conv_special"} ELSE {})
+             \cup (IF \E k \in 1..(Len(t) - 1), m \in 2..Len(t) : k < m /\ t[k] = "LB" /\ t[m] = "LB" /\ t[k + 1] # "LB"
+                                                                /\ \A j \in (k + 1)..(m - 1) : t[j] \notin {"RB", "COLON"} THEN {"in.nested_lb"} ELSE {})
+TagsOfIn(ok, why, ps, t) == IF ~ok THEN {"err:" \o why} \cup InTags(t) ELSE UNION {PartTags(ps[i]) : i \in 1..Len(ps)}
 TagsOf(ok, why, ps) == IF ~ok THEN {"err:" \o why} ELSE UNION {PartTags(ps[i]) : i \in 1..Len(ps)}
+
+\* ---------- the pinned implementation (format/src/format.rs at the pinned snapshot) as a second definition ----------
+\* Used only to recognise the recorded findings exactly: a result that differs from the reference is the known deviation
+\* iff it equals what this mirror predicts; anything else is a new violation.
+RECURSIVE RLit(_, _, _)
+\* parse_literal from i: <<literal text, next position>>; stops before a brace that is not doubled
+RLit(t, k, acc) == IF k > Len(t) THEN <<acc, k>>
+                   ELSE IF IsBrace(t[k]) THEN (IF k + 1 <= Len(t) /\ t[k + 1] = t[k] THEN RLit(t, k + 2, Append(acc, t[k])) ELSE <<acc, k>>)
+                   ELSE RLit(t, k + 1, Append(acc, t[k]))
+RECURSIVE RSpecEnd(_, _, _, _)
+\* parse_spec: scan from k (after the opening brace): <<status, left text, position of the closing brace>>
+RSpecEnd(t, k, nested, left) ==
+   IF k > Len(t) THEN <<"unmatched", left, 0>>
+   ELSE IF t[k] = "LB" THEN (IF nested THEN <<"invalid", left, 0>> ELSE RSpecEnd(t, k + 1, TRUE, Append(left, "LB")))
+   ELSE IF t[k] = "RB" THEN (IF nested THEN RSpecEnd(t, k + 1, FALSE, Append(left, "RB")) ELSE <<"ok", left, k>>)
+   ELSE RSpecEnd(t, k + 1, nested, Append(left, t[k]))
+RECURSIVE RBrackets(_, _, _, _, _, _)
+\* parse_part_in_brackets: state (k, left, right, split); inb marks the inner loop after '['
+RBrackets(t, k, l, r, split, inb) ==
+   IF k > Len(t) THEN [ok |-> TRUE, l |-> l, r |-> r, split |-> split]
+   ELSE LET c == t[k]
+            push(x) == IF split THEN [l |-> l, r |-> Append(r, x)] ELSE [l |-> Append(l, x), r |-> r] IN
+        IF inb
+        THEN LET q == push(c) IN
+             IF c = "RK" THEN RBrackets(t, k + 1, q.l, q.r, split, FALSE)
+             ELSE IF k = Len(t) THEN [ok |-> FALSE]                       \* MissingRightBracket
+             ELSE RBrackets(t, k + 1, q.l, q.r, split, TRUE)
+        ELSE IF c = "LK" THEN LET q == push(c) IN RBrackets(t, k + 1, q.l, q.r, split, TRUE)
+        ELSE IF c = "COLON" /\ ~split THEN RBrackets(t, k + 1, l, r, TRUE, FALSE)
+        ELSE LET q == push(c) IN RBrackets(t, k + 1, q.l, q.r, split, FALSE)
+RField(txt) ==
+   LET b == RBrackets(txt, 1, <<>>, <<>>, FALSE, FALSE) IN
+   IF ~b.ok THEN [ok |-> FALSE]
+   ELSE LET bangs == {k \in 1..Len(b.l) : b.l[k] = "BANG"}
+            bp == IF bangs = {} THEN 0 ELSE CHOOSE k \in bangs : \A m \in bangs : k <= m
+            name == IF bp = 0 THEN b.l ELSE SubSeq(b.l, 1, bp - 1)
+            convtxt == IF bp = 0 THEN <<>> ELSE SubSeq(b.l, bp + 1, Len(b.l))
+        IN IF bp # 0 /\ Len(convtxt) # 1 THEN [ok |-> FALSE]
+           ELSE [ok |-> TRUE, f |-> [k |-> "field", name |-> name, conv |-> IF bp = 0 THEN "" ELSE convtxt[1], spec |-> IF b.split THEN b.r ELSE <<>>]]
+RECURSIVE RParse(_, _, _)
+RParse(t, k, ps) ==
+   IF k > Len(t) THEN [ok |-> TRUE, parts |-> ps]
+   ELSE LET lit == RLit(t, k, <<>>) IN
+        IF lit[1] # <<>> THEN RParse(t, lit[2], Append(ps, Lit(lit[1])))
+        ELSE IF t[k] # "LB" THEN [ok |-> FALSE]
+        ELSE LET e == RSpecEnd(t, k + 1, FALSE, <<>>) IN
+             IF e[1] # "ok" THEN [ok |-> FALSE]
+             ELSE LET f == RField(e[2]) IN
+                  IF ~f.ok THEN [ok |-> FALSE] ELSE RParse(t, e[3] + 1, Append(ps, f.f))
+Pinned(t) == RParse(t, 1, <<>>)
 
 SpecDepth == LET F == {i \in 1..Len(parts) : parts[i].k = "field"} IN
              IF F = {} THEN 0 ELSE LET D == {Depth(parts[i].spec, 1, 0, 0) : i \in F} IN CHOOSE d \in D : \A e \in D : d >= e
 EmitOK == (Emit /\ done) =>
    PrintT("REPLAY" \o ToJson([fam |-> IF Mode = "name" THEN "field_name" ELSE "fmt_template",
-                             inp |-> inp, ok |-> (err = ""), err |-> err, parts |-> parts, tags |-> TagsOf(err = "", err, parts),
+                             inp |-> inp, ok |-> (err = ""), err |-> err, parts |-> parts,
+                             pinned |-> IF Mode = "name" THEN [ok |-> FALSE] ELSE (LET q == Pinned(inp) IN IF q.ok THEN q ELSE [ok |-> FALSE, parts |-> <<>>]),
+                             tags |-> TagsOfIn(err = "", err, parts, inp),
                              depth |-> IF Mode = "name" THEN 0 ELSE SpecDepth]))
 =======================================================================
